@@ -1,8 +1,6 @@
 #!/venv/bin/python
 """Copies confirmed seeded changes from /tmp/seeds into /verif/seeded/<Cxx-v>/ with a merged meta.json."""
 import json, os, shutil, sys
-FIRST = {  # result of the first evaluation, before any strengthening prompted by the seed (see DESIGN.md section 9)
-    "C05-b": "missed", "C06-b": "missed", "C09-a": "missed", "C16-b": "missed", "C20-b": "missed", "C12-a": "missed"}
 STRENGTHENED = {
     "C05-b": "robust reference made set-valued (keep-previous / reset fallbacks at problematic reweightings) so that a band solved from fewer than two weighted valid cells matches no admissible outcome; spike families with negative levels and gaps added",
     "C06-b": "ws2doptvplc_tyx added to the offset-commutation relation (sub-check offset_tyx); it was also caught by C04's tyx sub-check from the start",
@@ -31,12 +29,36 @@ STRENGTHENED = {
     "C17-f": "nodata passed as argument while the array carries a different nodata attribute ('both') also for mean_grp",
     "C19-f": "numeric axes starting below zero, so that the label 0 lies inside, at the end of, or off the axis",
     "C20-e": "daily labels in int16 / uint8 / uint16 / int8 arrays through the accessor (immutability was already checked, only int32 had been generated)"}
+STRENGTHENED.update({
+    "C01-g": "lambda handed to the core as Python int / numpy int64 / float32 besides float (the value is what counts)",
+    "C01-h": "weight class 'long zero-weight run' (half the series or more, at the end, the start or inside) with lambda in 1e-6..1e-3, where the closing pivots fall to ~3 lambda / L^3",
+    "C02-h": "encoding 'mixed': nodata cells, NaN and +-inf cells inside ONE series",
+    "C03-g": "valid float cells a hair away from the nodata value (one ulp, 1e-9, 0.004 .. 0.5) in the kernel and accessor generators",
+    "C04-h": "gap-free int16 series with a nodata value no int16 cell can hold (65535, NaN, 0.5, 40000, ...) containing the values such a number wraps to; also added to C02's placeholder relation",
+    "C09-h": "sub-check 'long': daily axes of more than 32767 steps (ungrouped, and 2-3 groups of fewer than 32767 steps each)",
+    "C10-g": "sub-check 'critical': for every length 8..200 (400 thorough) the tie-free series whose continuity-corrected Z lies just beyond / just inside the two-sided 5% critical value (n=156 gives Z=1.959968, between ndtri(0.975) and 1.96)",
+    "C11-g": "sub-check 'accessor_history': one time coordinate object queried repeatedly while the caller modifies the arrays it was handed (where writable) or replaces the labels in place",
+    "C12-g": "non-default dtype arguments (rolling.sum dtype=float64/int32, spi dtype=float32, zonal.mean dtype=float64) in the lazy-vs-eager relation - which exposed the genuine defect D16 on the unchanged tree",
+    "C13-h": "a third of the gufunc cases hand every array argument over as a strided view (values in between plausible but different), compared with the interpreted source on the plain arrays",
+    "C14-g": "third run of every gufunc with strided input views and strided out= rows inside guard buffers: guards intact, result equal to the contiguous call",
+    "C14-h": "degenerate data kinds (constant, exactly linear, two levels) among the boundary inputs",
+    "C15-g": "sub-check 'history': results handed out earlier are compared again at the end, with other same-shaped cubes and equal dask blocks processed in between",
+    "C15-h": "sub-check 'history': nodata attribute set / changed / removed and cells overwritten in place between autocorr() calls on one object",
+    "C16-g": "narrow integer cubes (uint8, int16) with a nodata attribute outside their range (-1, 256, 40000, 65535) containing the values it would wrap to",
+    "C16-h": "sub-check 'history': one cube and one zone raster edited in place between zonal.mean() / do_mean() calls",
+    "C17-g": "float32 series with one or two cells of 1e20 / 3e38 / 2^40 among small numbers: every window without such a cell must still be exact",
+    "C18-g": "descending time axes that are still regular (DatetimeIndex with negative freq from date_range(freq='-10D') or a reversing slice)",
+    "C18-h": "sub-check 'aliasing': several same-shaped rasters of >= 32768 pixels (separate cubes, Dataset variables, equal dask blocks) processed one after the other, all results compared at the end",
+    "C19-g": "sub-check 'history': axis relabelled in place / cells overwritten between iteragg calls on one object, compared with a brand-new object",
+    "C19-h": "the cube as the variables of a Dataset (a and 2a) with NaN cells"})
+FIRST = {k: "missed" for k in STRENGTHENED}  # result of the first evaluation, before the strengthening the seed prompted
 SUPERSEDED = {
+    "C12-g": "superseded: the patch was confirmed on hdc-algo e8a493c (tests pass, demo fails); the non-default dtype arguments it prompted in C12 exposed the genuine defect D16 in the same lines, repaired by 2da843a, after which the patch no longer applies (its failure mode - a lazy result whose computed dtype differs from the declared one - is what the repaired code and the regress files d16_* pin down)",
     "C15-c": "superseded: the patch applied to hdc-algo 26e16c3 (where it was confirmed and caught); after the repair 1d112b8 (float autocorr subtracts the first valid value) it no longer applies, and the failure mode it seeded (float32 products of large values) cannot be re-created on the repaired code because the products are formed from shifted, small values"}
 out_root = "/verif/seeded"
 os.makedirs(out_root, exist_ok=True)
 rows = []
-for root, variants in (("/tmp/seeds", ("a", "b")), ("/tmp/seeds2", ("c", "d")), ("/tmp/seeds3", ("e", "f"))):
+for root, variants in (("/tmp/seeds", ("a", "b")), ("/tmp/seeds2", ("c", "d")), ("/tmp/seeds3", ("e", "f")), ("/tmp/seeds4", ("g", "h"))):
   for pid in sorted(os.listdir(root)):
     if not pid.startswith("C"):
         continue
@@ -63,7 +85,7 @@ for root, variants in (("/tmp/seeds", ("a", "b")), ("/tmp/seeds2", ("c", "d")), 
         m = {"id": key, "property": pid, "breaks": meta.get("summary"), "needs_to_manifest": meta.get("needs_to_manifest"),
              "files_changed": meta.get("files_changed"), "author": "independent sub-agent given only the property text and a scratch worktree",
              "author_verification": meta.get("verified"),
-             "confirmed_by_me": {"base_commit": "hdc-algo HEAD at evaluation time (pinned tree + fix: commits; 2de2409 for round 1 a/b, 26e16c3 for round 2 c/d, e8a493c for round 3 e/f)", "patch_applies": True,
+             "confirmed_by_me": {"base_commit": "hdc-algo HEAD at evaluation time (pinned tree + fix: commits; 2de2409 for round 1 a/b, 26e16c3 for round 2 c/d, e8a493c for rounds 3 e/f and 4 g/h)", "patch_applies": True,
                                  "existing_tests_with_patch": tests, "demo_exit_code_clean_tree": 0, "demo_exit_code_patched_tree": int(ev["demo_exit_patched"]),
                                  "how": "tools/seed_eval.sh %s %s (scratch copy of /repo HEAD, git apply, pytest, demo on both trees, ./check %s --tier quick with HDC_REPO=<scratch>)" % (pid, v, pid)},
              "check_result_first_evaluation": FIRST.get(key, "caught"), "check_result_now": ev["check"],
